@@ -35,7 +35,11 @@ CtxL     == {"none", "default_like", "nocheck", "mode_none", "urllib3_ctx"}   \*
   \* with verify_mode CERT_NONE too; urllib3_ctx = urllib3.util.ssl_.create_urllib3_context() (documented:
   \* CERT_REQUIRED, check_hostname on, commonName fallback off)
 BackendL == {"ssl", "pyopenssl"}
-RouteL   == {"direct", "tunnel_http", "tunnel_https_good", "tunnel_https_bad", "tunnel_https_pinned"}
+RouteL   == {"direct", "tunnel_http", "tunnel_https_good", "tunnel_https_bad", "tunnel_https_pinned",
+             "tunnel_https_shared", "tunnel_https_shared_pah"}
+  \* ..._shared: good https proxy and proxy_ssl_context IS the caller's ssl_context (one shared object; with
+  \* no caller context it degenerates to tunnel_https_good); ..._shared_pah: the same with
+  \* proxy_assert_hostname set (to the proxy's right name)
   \* CONNECT tunnel through an http proxy, or through an https proxy whose certificate is good (trusted,
   \* right name), bad (untrusted issuer), or good and additionally pinned with proxy_assert_fingerprint
 CaSrcL   == {"file", "data", "dir", "none", "ctx"}
@@ -48,7 +52,12 @@ IssuerL  == {"trusted", "untrusted", "default_store"}
 SanL     == {"exact", "wildcard", "mismatch", "ip_match", "ip_mismatch", "cn_only"}
 HostL    == {"lower", "upper", "dot", "ipv4", "ipv6zone"}        \* spelling of the requested host
 
-HttpsProxyRoutes == {"tunnel_https_good", "tunnel_https_bad", "tunnel_https_pinned"}
+HttpsProxyRoutes == {"tunnel_https_good", "tunnel_https_bad", "tunnel_https_pinned",
+                     "tunnel_https_shared", "tunnel_https_shared_pah"}
+HistL    == {"fresh", "after_ah", "after_fp"}
+  \* history of the caller-supplied context OBJECT: fresh, or already used by an earlier connection that had
+  \* assert_hostname=<name> / assert_fingerprint=<right pin> (to a good server, same cert_reqs); the point
+  \* describes the LATER connection, which is the one judged
 
 CONSTANTS Routes,      \* sub-lattice explored: subset of RouteL
           Backends,    \* subset of BackendL
@@ -61,7 +70,7 @@ CONSTANTS Routes,      \* sub-lattice explored: subset of RouteL
 \* verified, so a pinned (hence "verified") https proxy silences the warning for an unvalidated origin.
 AllKnownDefects == {"PinnedProxySilencesWarning"}
 \* deviations that are NOT in the code: each must make TLC report a clause (the spec can see them)
-RefutableDeviations == {"DefaultStoreAlsoTrusted"}
+RefutableDeviations == {"DefaultStoreAlsoTrusted", "HostnameOwnerDecidedUpFront"}
 
 \* TLS-in-TLS needs SSLContext.wrap_bio, which the pyOpenSSL context does not have: those points
 \* are outside the lattice (urllib3 refuses them with ProxySchemeUnsupported).
@@ -70,8 +79,12 @@ ValidStack(backend, route) == route \in HttpsProxyRoutes => backend = "ssl"
 \* CAs travel inside the caller's context exactly when there is one
 ValidTrust(ctx, casrc) == (ctx = "none") <=> (casrc # "ctx")
 
-Cfg == {c \in [reqs : ReqsL, ah : AHL, fp : FPL, sh : SHL, ctx : CtxL, casrc : CaSrcL, backend : Backends,
-               route : Routes] : ValidStack(c.backend, c.route) /\ ValidTrust(c.ctx, c.casrc)}
+\* a history needs a caller context; only the kinds that start with check_hostname on are crossed with it
+ValidHist(ctx, hist) == hist # "fresh" => ctx \in {"default_like", "urllib3_ctx"}
+
+Cfg == {c \in [reqs : ReqsL, ah : AHL, fp : FPL, sh : SHL, ctx : CtxL, casrc : CaSrcL, hist : HistL,
+               backend : Backends, route : Routes] :
+            ValidStack(c.backend, c.route) /\ ValidTrust(c.ctx, c.casrc) /\ ValidHist(c.ctx, c.hist)}
 Srv == [issuer : IssuerL, san : Sans, host : Hosts]
 
 -----------------------------------------------------------------------------
@@ -102,6 +115,8 @@ Demanded(cfg) ==
 \* ... and of an HTTPS proxy's certificate (the same cert_reqs governs the proxy leg; a proxy pin
 \* replaces the proxy name check exactly as an origin pin replaces the origin name check).
 ProxyPinned(cfg) == cfg.route = "tunnel_https_pinned"
+ProxyAH(cfg)     == cfg.route = "tunnel_https_shared_pah"         \* proxy_assert_hostname = the proxy's name
+SharedCtx(cfg)   == cfg.route \in {"tunnel_https_shared", "tunnel_https_shared_pah"} /\ cfg.ctx # "none"
 ProxyDemanded(cfg) ==
     IF cfg.route \notin HttpsProxyRoutes THEN {}
     ELSE (IF ProxyPinned(cfg) THEN {"ppin"} ELSE {})
@@ -242,6 +257,8 @@ InitStateKD(cfg, srv, kd) ==
      checkHost |-> FALSE,      \* context.check_hostname: OpenSSL matches the name in the handshake
      cnFallback |-> FALSE,     \* context.hostname_checks_common_name
      trusts |-> {},            \* CA sets in the context's store: subset of {"private", "default"}
+     ctxCheckHostname |-> "unset",  \* check_hostname attribute of the caller-supplied context OBJECT; it
+                               \* persists across legs and connections: "unset" (as the caller made it) | "on" | "off"
      pVerified |-> "none",     \* conn.proxy_is_verified: "none" | "true" | "false"
      isVerified |-> FALSE,     \* conn.is_verified
      sockOpen |-> FALSE, hs |-> FALSE, sni |-> "<none>",
@@ -249,14 +266,32 @@ InitStateKD(cfg, srv, kd) ==
      exc |-> "none", by |-> "none"]     \* by: which component rejected (free per LATITUDE; drift only)
 InitState(cfg, srv) == InitStateKD(cfg, srv, KnownDefects)
 
+Refuse(s) == [s EXCEPT !.pc = "refused", !.exc = "config", !.sockOpen = FALSE]
+
+\* what context.check_hostname reads on the caller's object right now
+KindCheckHost(cfg) == CASE cfg.ctx = "default_like" -> TRUE
+                        [] cfg.ctx = "urllib3_ctx" -> cfg.backend = "ssl"     \* made by urllib3's factory
+                        [] OTHER -> FALSE
+CurCheckHost(s) == IF s.ctxCheckHostname = "unset" THEN KindCheckHost(s.cfg) ELSE s.ctxCheckHostname = "on"
+OnOff(b) == IF b THEN "on" ELSE "off"
+
+DerivedReqs(cfg) == IF cfg.reqs # "default" THEN cfg.reqs
+                    ELSE IF cfg.ctx # "none" THEN CtxMode(cfg.ctx) ELSE "REQUIRED"
+
 Raise(s, by) == [s EXCEPT !.pc = "raised", !.exc = "ssl", !.sockOpen = FALSE, !.by = by]
 
 \* --- HTTPSConnection.__init__: "cert_reqs depends on ssl_context so calculate last"
-En_DeriveCertReqs(s) == s.pc = "new"
-DeriveCertReqsStep(s) ==
-    [s EXCEPT !.certReqs = IF s.cfg.reqs # "default" THEN s.cfg.reqs
-                           ELSE IF s.cfg.ctx # "none" THEN CtxMode(s.cfg.ctx) ELSE "REQUIRED",
-              !.pc = "derived"]
+\* --- an EARLIER connection through the same caller context (assert_hostname=<name> or a right pin, same
+\*     cert_reqs, good server): its DecideWhoChecksHostname flipped check_hostname off ON THE OBJECT --
+\*     unless it never got that far (ValueError of the conflict).  (pyOpenSSL contexts cannot serve a second
+\*     connection at all -- finding C07-F2 -- so no earlier connection is made there.)
+En_PriorConnection(s) == s.pc = "new" /\ s.cfg.hist # "fresh"
+PriorConnectionStep(s) ==
+    LET conflict == s.cfg.backend = "ssl" /\ CurCheckHost(s) /\ DerivedReqs(s.cfg) = "NONE" IN
+    [s EXCEPT !.ctxCheckHostname = IF s.cfg.backend = "pyopenssl" \/ conflict THEN @ ELSE "off", !.pc = "primed"]
+
+En_DeriveCertReqs(s) == (s.pc = "new" /\ s.cfg.hist = "fresh") \/ s.pc = "primed"
+DeriveCertReqsStep(s) == [s EXCEPT !.certReqs = DerivedReqs(s.cfg), !.pc = "derived"]
 
 \* --- connect(): self._new_conn()
 En_Dial(s) == s.pc = "derived"
@@ -282,14 +317,22 @@ StoreAfterLoading(s, own, before) ==
 \* --- _connect_tls_proxy: same wrap-and-verify function, proxy_config's context (none here => a
 \*     fresh urllib3 context with the connection's cert_reqs), server_hostname = proxy host
 En_ProxyHandshake(s) == s.pc = "proxy_tls"
+\*     With proxy_ssl_context IS ssl_context the proxy leg works on the caller's object: the verify_mode
+\*     assignment can hit the conflict, and proxy_assert_hostname flips check_hostname off for good.
 ProxyHandshakeStep(s) ==
     LET signer == IF s.cfg.route = "tunnel_https_bad" THEN "nobody" ELSE "private"
         \* (when the caller brought a context the harness also passes ca_certs for the proxy leg)
+        shared == SharedCtx(s.cfg)
+        chk    == shared /\ CurCheckHost(s)
+        chk2   == IF ProxyAH(s.cfg) THEN FALSE ELSE chk
+        store  == IF shared THEN StoreAfterLoading(s, FALSE, {"private"}) ELSE StoreAfterLoading(s, TRUE, {})
     IN
-    IF s.cfg.backend = "pyopenssl" /\ s.cfg.casrc = "data" THEN Raise(s, "pyopenssl-cannot-load-cadata")
-    ELSE IF s.certReqs # "NONE" /\ signer \notin StoreAfterLoading(s, TRUE, {})
+    IF shared /\ chk /\ s.certReqs = "NONE" THEN Refuse(s)
+    ELSE IF s.cfg.backend = "pyopenssl" /\ s.cfg.casrc = "data" THEN Raise(s, "pyopenssl-cannot-load-cadata")
+    ELSE IF s.certReqs # "NONE" /\ signer \notin store
     THEN Raise(s, "openssl-proxy-chain")
     ELSE [s EXCEPT !.pVerified = IF s.certReqs = "REQUIRED" \/ ProxyPinned(s.cfg) THEN "true" ELSE "false",
+                   !.ctxCheckHostname = IF shared THEN OnOff(chk2) ELSE @,
                    !.pc = "at_proxy"]
 
 \* --- _tunnel(): CONNECT goes to the proxy; an http proxy is by definition unverified
@@ -306,12 +349,11 @@ BuildContextStep(s) ==
     LET own  == s.cfg.ctx = "none"
         \* create_urllib3_context: CERT_REQUIRED and not pyOpenSSL => check_hostname = True
         chk0 == IF own THEN (s.certReqs = "REQUIRED" /\ s.cfg.backend = "ssl")
-                ELSE IF s.cfg.ctx = "urllib3_ctx" THEN s.cfg.backend = "ssl"   \* made by the same factory
-                ELSE s.cfg.ctx = "default_like"
+                ELSE CurCheckHost(s)       \* the caller's object as earlier legs / connections left it
         \* ssl.SSLContext refuses verify_mode = CERT_NONE while check_hostname is on
         refuse == ~own /\ s.cfg.backend = "ssl" /\ chk0 /\ s.certReqs = "NONE"
     IN IF refuse
-       THEN [s EXCEPT !.pc = "refused", !.exc = "config", !.sockOpen = FALSE]
+       THEN Refuse(s)
        ELSE [s EXCEPT !.own = own, !.vmode = s.certReqs, !.checkHost = chk0,
                       \* ssl.create_default_context keeps the fallback on, urllib3's factory turns it off
                       !.cnFallback = ~own /\ s.cfg.backend = "ssl" /\ s.cfg.ctx # "urllib3_ctx",
@@ -322,7 +364,10 @@ BuildContextStep(s) ==
 En_DecideWhoChecksHostname(s) == s.pc = "ctx_built"
 DecideWhoChecksHostnameStep(s) ==
     LET ourselves == s.cfg.fp # "unset" \/ s.cfg.ah # "unset" \/ s.cfg.backend = "pyopenssl"
-    IN [s EXCEPT !.checkHost = IF ourselves THEN FALSE ELSE @, !.pc = "decided"]
+        chk == IF ourselves THEN FALSE ELSE s.checkHost
+    IN [s EXCEPT !.checkHost = chk,
+                 !.ctxCheckHostname = IF s.own THEN @ ELSE OnOff(chk),     \* written onto the caller's object
+                 !.pc = "decided"]
 
 \* --- load_default_certs() guard + ssl_wrap_socket(): load_verify_locations()
 En_LoadCAs(s) == s.pc = "decided"
@@ -352,7 +397,15 @@ AssertFingerprintStep(s) ==
 
 \* --- `elif verify_mode != CERT_NONE and not check_hostname and assert_hostname is not False:`
 \*     _match_hostname(cert, assert_hostname or server_hostname, hostname_checks_common_name)
-MatchesOurselves(s) == s.cfg.fp = "unset" /\ s.vmode # "NONE" /\ ~s.checkHost /\ s.cfg.ah # "False"
+\*     Named deviation "HostnameOwnerDecidedUpFront" (NOT in the code; TLC must refute it): the branch
+\*     tests a flag computed once from the ARGUMENTS instead of the live context.check_hostname, so a
+\*     context that an earlier leg / connection flipped off (or that the caller made that way) is matched
+\*     by nobody.
+MatchesOurselves(s) ==
+    /\ s.cfg.fp = "unset" /\ s.vmode # "NONE" /\ s.cfg.ah # "False"
+    /\ IF "HostnameOwnerDecidedUpFront" \in s.kd
+       THEN s.cfg.ah \in {"match", "mismatch"} \/ s.cfg.backend = "pyopenssl"
+       ELSE ~s.checkHost
 En_MatchHostname(s) == s.pc = "handshaken" /\ MatchesOurselves(s)
 MatchHostnameStep(s) ==
     LET raw == RawTermTruth(NameTerm(s.cfg), s.srv)
@@ -395,7 +448,8 @@ OutcomeClasses == {"SSLErrorBeforeRequest", "SentVerified", "SentUnverifiedWarne
 
 \* the step function (used by the actions below AND by the pure Run / Outcome operators)
 NextState(s) ==
-    CASE En_DeriveCertReqs(s)          -> DeriveCertReqsStep(s)
+    CASE En_PriorConnection(s)         -> PriorConnectionStep(s)
+      [] En_DeriveCertReqs(s)          -> DeriveCertReqsStep(s)
       [] En_Dial(s)                    -> DialStep(s)
       [] En_ProxyHandshake(s)          -> ProxyHandshakeStep(s)
       [] En_Tunnel(s)                  -> TunnelStep(s)
@@ -423,6 +477,7 @@ ObsOf(s) == [sent |-> s.reqBytes, proxied |-> s.connectSent, resp |-> s.pc = "se
              closed |-> ~s.sockOpen, verified |-> s.isVerified, warned |-> s.warned]
 
 \* actions
+PriorConnection         == En_PriorConnection(st)         /\ st' = PriorConnectionStep(st)
 DeriveCertReqs          == En_DeriveCertReqs(st)          /\ st' = DeriveCertReqsStep(st)
 Dial                    == En_Dial(st)                    /\ st' = DialStep(st)
 ProxyHandshake          == En_ProxyHandshake(st)          /\ st' = ProxyHandshakeStep(st)
@@ -453,7 +508,7 @@ ReportAnomalous ==
 
 Init == \E cfg \in Cfg, srv \in Srv : st = InitState(cfg, srv)
 
-Next == \/ DeriveCertReqs \/ Dial \/ ProxyHandshake \/ Tunnel \/ BuildContext \/ DecideWhoChecksHostname
+Next == \/ PriorConnection \/ DeriveCertReqs \/ Dial \/ ProxyHandshake \/ Tunnel \/ BuildContext \/ DecideWhoChecksHostname
         \/ LoadCAs \/ Handshake \/ AssertFingerprint \/ MatchHostname \/ NoPostHandshakeCheck \/ ComputeIsVerified
         \/ Warn \/ SendRequest
         \/ ReportSSLErrorBeforeRequest \/ ReportSentVerified \/ ReportSentUnverifiedWarned
@@ -464,10 +519,10 @@ Spec == Init /\ [][Next]_vars /\ WF_vars(Next)
 -----------------------------------------------------------------------------
 (* What TLC checks (stage 1)                                                                   *)
 
-PCs == {"new", "derived", "proxy_tls", "at_proxy", "connected", "ctx_built", "decided", "loaded", "handshaken", "checked",
+PCs == {"new", "primed", "derived", "proxy_tls", "at_proxy", "connected", "ctx_built", "decided", "loaded", "handshaken", "checked",
         "connected_tls", "validated", "sent", "raised", "refused", "done"}
 TypeOK == /\ st.cfg \in Cfg /\ st.srv \in Srv /\ st.pc \in PCs /\ st.kd = KnownDefects
-          /\ st.trusts \subseteq {"private", "default"}
+          /\ st.trusts \subseteq {"private", "default"} /\ st.ctxCheckHostname \in {"unset", "on", "off"}
           /\ st.certReqs \in ReqsL \cup {"unset"} /\ st.vmode \in ReqsL \cup {"unset"}
           /\ st.pVerified \in {"none", "true", "false"} /\ st.exc \in {"none", "ssl", "config"}
           /\ \A f \in {"own", "checkHost", "cnFallback", "isVerified", "sockOpen", "hs", "connectSent",
